@@ -68,22 +68,28 @@ def retouched_ws_only(run, idx, path, lineno):
 
 def reindented_below_insert(run, idx, path, lineno):
     """line `lineno` is an AI line whose exact text its session never reported — somebody else changed
-    only its whitespace before it was committed — and the line directly above it is a new line of a
-    different author: the token-level diff of that interval pairs the session's tokens with the
-    inserted line and the re-indented line goes to the inserter (known finding)."""
+    only its whitespace before it was committed — and, in the same stretch of unreported edits, the line
+    directly above or below it changed too (a line inserted above, a neighbouring line deleted): the
+    token-level diff of that interval pairs the session's tokens with the neighbour and the re-indented
+    line goes to the other editor (known finding). Re-indenting alone keeps the attribution."""
     files = run.commits[idx][1]
-    parent = run.commits[idx - 1][1]
     try:
         l = files[path][lineno - 1]
-        above = files[path][lineno - 2] if lineno >= 2 else None
     except (KeyError, IndexError):
         return False
-    if l[1] is None or above is None:
+    if l[1] is None:
         return False
+    nt = lambda t: "".join(t.split())
     wrote = run.wrote.get(l[1], set())
-    ws_retouched = l[0] not in wrote and any("".join(t.split()) == "".join(l[0].split()) for t in wrote)
-    above_new = above[1] != l[1] and all(pl[2] != above[2] for pl in parent.get(path, []))
-    return ws_retouched and above_new
+    ws_retouched = l[0] not in wrote and any(nt(t) == nt(l[0]) for t in wrote)
+    if not ws_retouched:
+        return False
+    was = getattr(run, "neigh", {}).get((l[1], nt(l[0])))
+    if was is None:
+        return False
+    above = nt(files[path][lineno - 2][0]) if lineno >= 2 else None
+    below = nt(files[path][lineno][0]) if lineno < len(files[path]) else None
+    return (above, below) != was
 
 
 def reindented_below_insert_any(run, idx, path, lineno):
@@ -151,7 +157,7 @@ def check_commit(run, idx, failures):
             if missing and not extra and all(retouched_ws_only(run, idx, p, l) for l in missing):
                 sig = "ws-only-retouch-of-committed-ai-line"
             elif missing and not extra and all(reindented_below_insert(run, idx, p, l) for l in missing):
-                sig = "uncommitted-ai-line-reindented-below-a-line-inserted-in-the-same-interval"
+                sig = "uncommitted-ai-line-reindented-next-to-a-change-in-the-same-interval"
             elif all(last_line_no_newline(run, idx, p, l) for l in list(missing) + list(extra)):
                 sig = "last-line-without-newline-credited-to-session-that-deleted-below"
             failures.append((sig, {"sha": sha, "path": p, "missing": missing, "extra": extra, "line_texts": texts,
@@ -175,7 +181,7 @@ def check_commit(run, idx, failures):
             if missing and not extra and all(retouched_ws_only_any(run, idx, p, l) for l in missing):
                 sig = "ws-only-retouch-of-committed-ai-line"
             elif missing and not extra and all(reindented_below_insert_any(run, idx, p, l) for l in missing):
-                sig = "uncommitted-ai-line-reindented-below-a-line-inserted-in-the-same-interval"
+                sig = "uncommitted-ai-line-reindented-next-to-a-change-in-the-same-interval"
             elif all(last_line_no_newline(run, idx, p, l) for l in list(missing) + list(extra)):
                 sig = "last-line-without-newline-credited-to-session-that-deleted-below"
             failures.append((sig, {"sha": sha, "path": p, "missing": missing, "extra": extra}))
@@ -204,7 +210,7 @@ def _run_scenario(sc):
             sc["_observed"] = observed
             sc["_commit_ok"] = list(run.commit_ok)
             sc["_idealised"] = sorted({d.get("path") for sig, d in failures
-                                       if sig == "uncommitted-ai-line-reindented-below-a-line-inserted-in-the-same-interval"})
+                                       if sig == "uncommitted-ai-line-reindented-next-to-a-change-in-the-same-interval"})
     except Exception as ex:
         failures.append(("runner-exception", {"error": repr(ex), "trace": traceback.format_exc()[-1500:]}))
         ncommits = 0
